@@ -13,7 +13,9 @@ def sym_u8(name):
     return VInt(8, False, lin=Lin.atom(("sym", name, 0, 255)))
 
 
-def run_parser(facts, decode=None, stubs=None, budget=20000):
+def run_parser(facts, decode=None, stubs=None, budget=20000, state_sets=None):
+    """state_sets: optional {field name: IntSet} restricting the symbolic pre-state to a proved
+    invariant of the reachable states"""
     I = Interp(facts, xform.EXT, budget=budget)
     crate = facts.crate
     if stubs is None:
@@ -32,7 +34,10 @@ def run_parser(facts, decode=None, stubs=None, budget=20000):
         t = facts.types[fdef["ty"]]
         nm = "self." + fdef["name"]
         if t["k"] == "int":
-            vals.append(VInt(t["w"], t["s"], lin=Lin.atom(("sym", nm, 0, (1 << t["w"]) - 1))))
+            a = ("sym", nm, 0, (1 << t["w"]) - 1)
+            vals.append(VInt(t["w"], t["s"], lin=Lin.atom(a)))
+            if state_sets and fdef["name"] in state_sets:
+                st.pc.sets[a] = state_sets[fdef["name"]]
         elif t["k"] == "adt" and t["def"] == OPTION:
             vals.append(VSymEnum(OPTION, ("sym", nm + "?", 0, 1), {0: (), 1: (sym_u8(nm + ".val"),)}))
         elif t["k"] == "adt" and "Vec" in t["def"]:
